@@ -60,8 +60,12 @@ void StatementBuilder::collectDependencies(std::set<symbol_t>& dependencies, exp
         if (dependencies.find(s) == dependencies.end()) {
             dependencies.insert(s);
             if (auto d = s.get_data(); d) {
-                if (auto t = s.get_type(); !(t.is_function() || t.is_function_external())) {
-                    // assume is its variable, which is not always true
+                auto t = s.get_type();
+                // the user data of templates, processes, locations, ... is not a variable_t
+                const bool not_a_variable = t.is_function() || t.is_function_external() || t.is(INSTANCE) ||
+                                            t.is(LSC_INSTANCE) || t.is(PROCESS) || t.is(PROCESS_SET) || t.is(LOCATION) ||
+                                            t.is(BRANCHPOINT) || t.is(INSTANCE_LINE);
+                if (!not_a_variable) {
                     variable_t* v = static_cast<variable_t*>(d);
                     v->init.collect_possible_reads(symbols);
                 } else {
